@@ -97,6 +97,19 @@ def gen_cases(rng, tier):
             c["strategy"] = rng.choice(["create_unique", "create_unique", "merge", "error"])
             c["feats"] = [dict(f, attrs=f["attrs"] + [["exon_id", ["E%d" % rng.randrange(3)]]]) if f["type"] == sub and rng.random() < 0.8 else f
                           for f in feats]
+        if i % 7 == 3:
+            # a transcript id that occurs under a second gene id on some lines (read-through / overlapping annotations): the
+            # transcript is a child of both genes, and a gene seen only this way still gets its extent
+            genes = sorted(set(v[0] for f in c["feats"] for k, v in f["attrs"] if k == gkey))
+            other = rng.choice(genes + ["GX"])
+            c["feats"] = [dict(f, attrs=[[k, [other]] if k == gkey else [k, v] for k, v in f["attrs"]])
+                          if f["type"] == sub and rng.random() < 0.3 else f for f in c["feats"]]
+        if i % 6 == 5 and not c.get("exon_key") and c["strategy"] in ("error", "create_unique", "merge"):
+            # a second annotation about other genes, imported through update() on the same in-memory database (one sqlite
+            # connection for both imports): its transcripts and genes are inferred as in a single import
+            f2 = gen_annotation(rng, tkey, gkey, sub)
+            ren = lambda v: "H" + v
+            c["feats2"] = [dict(f, attrs=[[k, [ren(x) for x in v]] if k in (tkey, gkey) else [k, v] for k, v in f["attrs"]]) for f in f2]
         cases.append(c)
     return cases
 
@@ -129,6 +142,9 @@ def shrinks(c):
         yield dict(c, feats=feats[:i] + feats[i + 1:])
     if c.get("text"):
         yield dict(c, text=False)
+    f2 = c.get("feats2") or []
+    for i in range(len(f2)):
+        yield dict(c, feats2=f2[:i] + f2[i + 1:])
     for i, f in enumerate(feats):
         for j, (k, vs) in enumerate(f["attrs"]):
             if k not in (c["tkey"], c["gkey"]):
@@ -145,6 +161,20 @@ def run_impl(c):
     st, db = imp.run_create(c["feats"], fmt="gtf", text=c.get("text", False), **kw)
     if st == "err":
         return {"tables": ["err", db]}
+    if c.get("feats2"):
+        from gffutils import constants
+        dialect = dict(constants.dialect)
+        dialect.update({"fmt": "gtf", "keyval separator": " ", "quoted GFF2 values": True, "field separator": "; ",
+                        "trailing semicolon": True})
+        try:
+            # update() hands its keyword arguments to the importer class itself, whose names for the three GTF settings lack
+            # the gtf_ prefix that create_db uses (with the create_db names they are silently ignored)
+            kw2 = dict(kw)
+            for a, b in (("gtf_transcript_key", "transcript_key"), ("gtf_gene_key", "gene_key"), ("gtf_subfeature", "subfeature")):
+                kw2[b] = kw2.pop(a)
+            db.update([imp.to_feature(d, dialect) for d in c["feats2"]], make_backup=False, **kw2)
+        except Exception as ex:
+            return {"tables": ["err", L.err_class(ex)]}
     t = imp.dump_tables(db.conn)
     if not imp.tables_ok(t):
         return {"tables": ["err", "Other"]}
@@ -154,8 +184,8 @@ def run_impl(c):
 def coq_case(c, o):
     g = "(mkGtf %s %s %s %s %s)" % (L.s(c["tkey"]), L.s(c["gkey"]), L.s(c["sub"]), L.b(c["no_genes"]), L.b(c["no_transcripts"]))
     extra = "[(%s, [KAttr %s])]" % (L.s(c["sub"]), L.s(c["exon_key"])) if c.get("exon_key") else "(@nil (str * list idkey))"
-    return "Case %s %s %s %s %s" % (g, imp.STRAT[c["strategy"]], extra, L.lst([imp.coq_row(f) for f in c["feats"]], "row"),
-                                    imp.res_tables(o["tables"]))
+    return "Case %s %s %s %s %s %s" % (g, imp.STRAT[c["strategy"]], extra, L.lst([imp.coq_row(f) for f in c["feats"]], "row"),
+                                       L.lst([imp.coq_row(f) for f in c.get("feats2", [])], "row"), imp.res_tables(o["tables"]))
 
 
 def labels(c, o):
@@ -166,6 +196,8 @@ def labels(c, o):
     yield "strategy=" + c["strategy"]
     if c.get("exon_key"):
         yield "subfeatures-keyed-on-exon_id"
+    if c.get("feats2"):
+        yield "second-batch-through-update"
     if any(f["type"] in ("gene", "transcript") for f in c["feats"]):
         yield "has-explicit-gene-or-transcript-line"
     if any(f["type"] not in ("gene", "transcript") and not any(k == c["tkey"] for k, _ in f["attrs"]) for f in c["feats"]):
